@@ -286,6 +286,22 @@ func GenDef(r *rand.Rand, p *Profile) Cfg {
 		c.Self = true
 		c.Prog = T(pick(r, []string{"tool", "my-prog", "x"}))
 	}
+	c.Inherit = chance(r, 0.4)
+	c.OptsLate = chance(r, 0.3)
+	if len(c.Nodes) > 1 && chance(r, 0.15) {
+		// a program whose top level declares no options of its own: everything lives in the commands
+		targets := []int{}
+		for i := range c.Nodes[1:] {
+			if !c.Nodes[i+1].IsHelp {
+				targets = append(targets, i+2)
+			}
+		}
+		for i := range c.Opts {
+			if c.Opts[i].Node == 1 && !c.Opts[i].IsHelpOpt && len(targets) > 0 {
+				c.Opts[i].Node = targets[r.Intn(len(targets))]
+			}
+		}
+	}
 	if chance(r, p.Sets) {
 		for k := 1 + r.Intn(3); k > 0; k-- {
 			oi := r.Intn(len(c.Opts) + 1) // 0: a name that is not declared
